@@ -29,6 +29,8 @@ EXPLANATION = (
     "to the digits printed; Molekel's '$$'-per-center encoding for unsorted centers; spin-labelling "
     "heuristics of the WFN reader."
 )
+TECHNIQUE += "; finite-domain constant evaluation of the Molden tag writer against the reader's tag branch; symbolic index-map evaluation of the convention-application expressions"
+EXPLANATION += " Added: (R8) for all eight Cartesian/pure combinations of d, f, g shells the tags written by molden.dump_one are read back by the Molden reader's tag branch as the same kinds (both evaluated by the whitelisted constant evaluator); (R9) every expression that applies (permutation, signs) to orbital coefficients, evaluated on symbolic arrays with a non-trivial permutation, yields row r = signs[r] * source row permutation[r]."
 TRUSTED = ["CPython ast parser", "numpy fancy indexing a[p] places a[p[i]] at row i", "float()/int() do not accept thousands separators"]
 
 WRITERS = ("fchk", "molden", "molekel", "wfn", "wfx")
@@ -44,7 +46,7 @@ def run(ctx):
     ce = ConstEval(prog)
     cc = prog.func("iodata.convert.convert_conventions")
     mb_cls = prog.cls("iodata.basis.MolecularBasis")
-    ctx.clauses_decided = ["R1 conventions applied (index, then scale)", "R2 target-table agreement", "R3 basis coherence", "R4 scale coherence", "R5 density matrices converted", "R6 prepare_dump guard matrix", "R7 written numbers are readable", "R8 Molden pure/Cartesian tags"]
+    ctx.clauses_decided = ["R1 conventions applied (index, then scale)", "R2 target-table agreement", "R3 basis coherence", "R4 scale coherence", "R5 density matrices converted", "R6 prepare_dump guard matrix", "R7 written numbers are readable", "R8 Molden pure/Cartesian tags", "R9 convention application evaluated on symbols"]
     ctx.clauses_declined = ["equality of orbital values / occupations / energies / densities to the digits printed", "Molekel '$$'-per-center encoding for unsorted centers", "spin-labelling heuristics of the WFN reader"]
     for rid, title, wit in (
         ("R1", "orbital coefficients are permuted, then sign-scaled, with the pair from one convert_conventions call", "rows in the wrong place or with the wrong sign for any shell whose convention differs from the target's"),
@@ -201,6 +203,10 @@ def run(ctx):
     ctx.rule("R6", "prepare_dump guard matrix", "an unsupported object reaches a writer that mis-writes it")
     check_guard_matrix(ctx, "R6")
     check_molden_tags(ctx, ce)
+    ctx.rule("R9", "written coefficient rows are signs[r] x rows[permutation[r]] (symbolic evaluation of the writer expressions)", "signs are attached to the rows before they are moved (or the permutation is applied twice / on the wrong axis): coefficients of sign-flipped functions change sign or position")
+    from .indexmaps import check_index_maps
+
+    check_index_maps(ctx, "R9", ["writer_conventions"])
 
 
 def check_molden_tags(ctx, ce):
